@@ -1,7 +1,56 @@
-//! Trix — reference model (TODO).
+//! Trix ("TRIX (extended)"). Doc: 2 values — `main` value, `signal line` value. 3 signals —
+//!   #0 main value changes direction upwards: full buy; downwards: full sell;
+//!   #1 main value crosses the signal line upwards: full buy; downwards: full sell;
+//!   #2 main value crosses the zero line upwards: full buy; downwards: full sell.
+//! Linked page (wikipedia): smooth the source three times with an N-period EMA, then take the
+//! change between today's and yesterday's value of that triple-smoothed series.
 use super::*;
 
-/// returns None until the reference is written
-pub fn make(_cfg: &Cfg, _c0: &RC) -> Option<Box<dyn IndRef>> {
-	None
+#[derive(Clone)]
+pub struct Trix {
+	src: String,
+	tma: Box<dyn rm::RefVV>,
+	prev_tma: Q,
+	sig: Box<dyn rm::RefVV>,
+	rev: Rev,
+	x1: CrossD,
+	x2: CrossD,
+}
+
+pub fn make(cfg: &Cfg, c0: &RC) -> Option<Box<dyn IndRef>> {
+	let src = cfg.src("source");
+	let s0 = source(c0, &src);
+	Some(Box::new(Trix {
+		// EMA of EMA of EMA, each of length `period1`; on the constant prehistory all of them sit at the source
+		tma: rm::ma_q("tma", cfg.int("period1"), s0),
+		prev_tma: s0,
+		// the main value is a change: 0 on the constant prehistory, and so is its average
+		sig: cfg.ma_ref("signal", Q::exact(0.0)),
+		// † follows the implementation: "changes direction" = a pivot with one bar on either side
+		rev: Rev::new(1, 1, 0.0),
+		// previous differences in the prehistory: main - signal = 0, main - 0 = 0
+		x1: CrossD::new(0.0),
+		x2: CrossD::new(0.0),
+		src,
+	}))
+}
+
+impl IndRef for Trix {
+	fn values(&mut self, c: &RC) -> Vec<Q> {
+		let s = source(c, &self.src);
+		let tma = self.tma.stepq(s);
+		// † follows the implementation: the doc comment gives no formula; the main value is the plain
+		// one-step difference of the triple-smoothed series (the linked page describes a *percentage* difference)
+		let v = tma - self.prev_tma;
+		self.prev_tma = tma;
+		let sig = self.sig.stepq(v);
+		vec![v, sig]
+	}
+	fn signals(&mut self, _c: &RC, own: &[f64]) -> Vec<Sig> {
+		let s0 = sig_sign(self.rev.step(own[0]));
+		let s1 = sig_sign(self.x1.cross(own[0], own[1]));
+		let s2 = sig_sign(self.x2.cross(own[0], 0.0));
+		vec![s0, s1, s2]
+	}
+	indref!(Trix);
 }
